@@ -30,6 +30,7 @@ REPO = os.path.realpath(os.environ.get("VERIF_REPO", "/repo"))
 GUARD_ENV = "CSPUZ_VERIF_SIM"  # recorded in MANIFEST.hooks; the source does not read it.
 
 
+EARLY_STOP_VIOLATING_RUNS = int(os.environ.get("VERIF_EARLY_STOP", "400"))
 RUN_WALL_LIMIT = float(os.environ.get("VERIF_RUN_WALL_LIMIT", "40"))
 
 
@@ -331,11 +332,23 @@ def run_batch(prop_name, master, tier, n_runs, workers=None, chunk=None, wall_li
         results = []
         with concurrent.futures.ProcessPoolExecutor(max_workers=workers, mp_context=ctx) as ex:
             futs = [ex.submit(_worker_chunk, (prop_name, master, tier, c, wall_limit)) for c in chunks]
+            n_bad = 0
             for f in futs:  # merged in seed order, independent of worker scheduling
+                if n_bad >= EARLY_STOP_VIOLATING_RUNS:
+                    f.cancel()
+                    continue
                 try:
                     results.append(f.result(timeout=wall_limit + 60))
+                except concurrent.futures.CancelledError:
+                    continue
                 except Exception as e:  # BrokenProcessPool, timeout
                     raise HarnessError(f"worker failed: {e!r}")
+                n_bad += len(results[-1]["violations"]) + len(results[-1]["harness_errors"])
+            if n_bad >= EARLY_STOP_VIOLATING_RUNS:
+                # the property is clearly broken: do not burn the rest of the budget (a prefix of the
+                # seed order was explored; which prefix is reported through the run count)
+                for f in futs:
+                    f.cancel()
     for r in results:
         agg["runs"] += r["runs"]
         agg["steps"] += r["steps"]
